@@ -378,6 +378,16 @@ def run_c15(chk):
             chk.fail("load-differs-from-typing", f"call {j} after loading vs typing: {(tr[0][j] if j < len(tr[0]) else None)!r:.300} vs {(tr[1][j] if j < len(tr[1]) else None)!r:.300}",
                      {"file": text, "harness_commands": ["load\t" + esc(text.encode())] + a.commands()[1:]})
         sessions.append(b.ops)
+        # the property speaks of files whose lines are all tokenizable, and the CLI comparison needs a program that ends
+        entered = [row for op, row in b.ops if op[0] == "line"][:len(lines)]
+        if any(row.kind == "row" and row.outcome != "ok" for row in entered):
+            chk.count("file:not-well-formed (a line does not tokenize): CLI comparison skipped")
+            chk.case(text, nontrivial=True, sample={"file": lines[:5]})
+            continue
+        if a.state != "Idle" or b.state != "Idle":
+            chk.count("file:still running after the turn budget: CLI comparison skipped")
+            chk.case(text, nontrivial=True, sample={"file": lines[:5]})
+            continue
         # (2) the abasic binary: FILE vs piped interactive session, all option combinations
         path = os.path.join(work, f"p{i}.bas")
         with open(path, "w") as f:
